@@ -211,6 +211,17 @@ theorem keysLower_applyCall (r r' : Req) (c : Call) (h : applyCall r c = some r'
   | query u =>
     simp only [applyCall] at h; injection h with h; subst h; exact hl
 
+def isReader : Call → Bool
+  | .bodyReader _ => true
+  | _ => false
+
+/-- the last body call hands over a reader of unknown length (proof device for `Req.lenKnown`) -/
+def lastBodyIsReader : List Call → Bool
+  | [] => false
+  | c :: cs => match lastBody cs with
+    | some _ => lastBodyIsReader cs
+    | none => isReader c
+
 /-- everything the fold does, field by field -/
 theorem foldCalls_spec (cs : List Call) : ∀ (r r' : Req), foldCalls r cs = some r' →
     r'.method = r.method ∧
@@ -350,12 +361,83 @@ theorem lastBodyIsReader_of_none (cs : List Call) (h : lastBody cs = none) : las
 theorem documentedMime_eq (k : BodyKind) : documentedMime k = k.mime := by cases k <;> decide
 
 
-/-! ### C15: appending the shell's headers -/
+/-! ### the emitted header list: sorted by name, values of one name in order -/
 
 theorem valuesFor_cons (p : Bytes × Bytes) (hs : List (Bytes × Bytes)) (n : Bytes) :
     valuesFor (p :: hs) n = (if lower p.1 = n then [p.2] else []) ++ valuesFor hs n := by
   unfold valuesFor
   by_cases h : lower p.1 = n <;> simp [h]
+
+theorem bytesLe_refl (a : Bytes) : bytesLe a a = true := by
+  induction a with
+  | nil => rfl
+  | cons x t ih => simp [bytesLe, ih]
+
+/-- names of a pair list are lower-case -/
+def NamesLower (l : List (Bytes × Bytes)) : Prop := ∀ q ∈ l, lower q.1 = q.1
+
+theorem valuesFor_insertByName (p : Bytes × Bytes) (l : List (Bytes × Bytes)) (n : Bytes)
+    (hp : lower p.1 = p.1) (hl : NamesLower l) :
+    valuesFor (insertByName p l) n = valuesFor (p :: l) n := by
+  induction l with
+  | nil => rfl
+  | cons q t ih =>
+    have hq : lower q.1 = q.1 := hl q (by simp)
+    have ht : NamesLower t := fun x hx => hl x (by simp [hx])
+    simp only [insertByName]
+    split
+    · rfl
+    · rename_i hle
+      rw [valuesFor_cons, ih ht, valuesFor_cons, valuesFor_cons, valuesFor_cons]
+      by_cases hpn : lower p.1 = n <;> by_cases hqn : lower q.1 = n <;> simp [hpn, hqn]
+      exfalso
+      have : p.1 = q.1 := by rw [← hp, ← hq, hpn, hqn]
+      rw [this, bytesLe_refl] at hle
+      exact hle rfl
+
+theorem mem_insertByName (p x : Bytes × Bytes) (l : List (Bytes × Bytes)) :
+    x ∈ insertByName p l ↔ x = p ∨ x ∈ l := by
+  induction l with
+  | nil => simp [insertByName]
+  | cons q t ih =>
+    simp only [insertByName]
+    split
+    · simp
+    · simp only [List.mem_cons, ih]
+      constructor
+      · rintro (h | h | h) <;> simp [h]
+      · rintro (h | h | h) <;> simp [h]
+
+theorem mem_sortByName (x : Bytes × Bytes) (l : List (Bytes × Bytes)) : x ∈ sortByName l ↔ x ∈ l := by
+  induction l with
+  | nil => simp [sortByName]
+  | cons p t ih =>
+    have : sortByName (p :: t) = insertByName p (sortByName t) := rfl
+    rw [this, mem_insertByName, ih]; simp
+
+theorem valuesFor_sortByName (l : List (Bytes × Bytes)) (n : Bytes) (hl : NamesLower l) :
+    valuesFor (sortByName l) n = valuesFor l n := by
+  induction l with
+  | nil => rfl
+  | cons p t ih =>
+    have hp : lower p.1 = p.1 := hl p (by simp)
+    have ht : NamesLower t := fun x hx => hl x (by simp [hx])
+    have : sortByName (p :: t) = insertByName p (sortByName t) := rfl
+    rw [this, valuesFor_insertByName p _ n hp (fun x hx => ht x ((mem_sortByName x t).mp hx)),
+      valuesFor_cons, ih ht, valuesFor_cons]
+
+theorem namesLower_flat (h : Headers) (hk : KeysLower h) : NamesLower h.flat := by
+  intro q hq
+  simp only [Headers.flat, List.mem_flatMap, List.mem_map] at hq
+  obtain ⟨e, he, v, _, rfl⟩ := hq
+  exact hk e he
+
+theorem valuesFor_emitHeaders (h : Headers) (hk : KeysLower h) (n : Bytes) :
+    valuesFor (emitHeaders h) n = h.values n := by
+  unfold emitHeaders
+  rw [valuesFor_sortByName _ n (namesLower_flat h hk), valuesFor_flat h hk]
+
+/-! ### C15: appending the shell's headers -/
 
 theorem appendAll_spec (hs : List (Bytes × Bytes)) : ∀ h h' : Headers, appendAll h hs = some h' →
     (KeysLower h → KeysLower h') ∧ ∀ n, h'.values n = h.values n ++ valuesFor hs n := by
